@@ -4,13 +4,23 @@
    PARTIAL: "in a mesh with stable membership on a delivering network no healthy peer is ever timed
    out" combines interval_safe with message delivery; it is decided by the executed correspondence
    on heterogeneous meshes for the grid of timeout/keepalive values (py/props/c15.py). *)
-From VpnModel Require Import Base Interval IntervalProofs NodeInfo Table TableProofs Node NodeProofs.
+From VpnModel Require Import Base Interval IntervalProofs NodeInfo Table TableProofs Nonce Replay Core Conn PeerCrypto Node NodeProofs ScheduleProofs.
 
 (* whenever a node schedules its next announcement the delay is at most one second or strictly shorter than every timeout its peers advertised *)
 Theorem C15_interval_safe : forall upd advertised, advertised <> [] ->
   let i := announce_interval upd advertised in
   i <= 1 \/ (forall x, In x advertised -> i < x).
 Proof. exact interval_safe. Qed.
+
+(* node level: the announcement step of housekeeping (C15_housekeep_expires_first shows where it sits) sets the next announcement to now + that interval, computed from the timeouts its current peers advertised *)
+Theorem C15_node_schedule_safe : forall now n3,
+  let '(m, fx) := broadcast n3 MESSAGE_TYPE_NODE_INFO (ni_encode (create_node_info n3)) in
+  let advertised := map (fun e => p_peer_timeout (snd e)) (n_peers n3) in
+  let iv := announce_interval (update_freq (c_peer_timeout (n_cfg m)) (c_keepalive (n_cfg m)))
+                              (map (fun e => p_peer_timeout (snd e)) (n_peers m)) in
+  n_next_peers (with_sched m (now + Z.of_N iv)%Z (n_next_own_reset m) (n_reconnect m)) = (now + Z.of_N iv)%Z /\
+  (advertised <> [] -> iv <= 1 \/ forall x, In x advertised -> iv < x).
+Proof. exact announcement_schedule_safe. Qed.
 
 (* with no peers the own update frequency, capped at 90 s *)
 Theorem C15_interval_no_peers : forall upd, announce_interval upd [] = N.min upd 90.
@@ -63,6 +73,7 @@ Theorem C15_backoff_forever : forall times e, backoff_ok e -> backoff_ok (backof
 Proof. exact backoff_run_ok. Qed.
 
 Print Assumptions C15_interval_safe.
+Print Assumptions C15_node_schedule_safe.
 Print Assumptions C15_interval_no_peers.
 Print Assumptions C15_keepalive_default.
 Print Assumptions C15_expired_removed.
